@@ -2,7 +2,7 @@
    Only statements; every proof is [exact] of a lemma of Tree/GenProofs.v. *)
 From Coq Require Import List Arith.
 Import ListNotations.
-From Onet Require Import Tree.Gen Tree.GenProofs Tree.GenBigProofs Tree.GenBigShape Corr.C12 Tree.CheckProofs Tree.GenBigLevels.
+From Onet Require Import Tree.Gen Tree.GenProofs Tree.GenBigProofs Tree.GenBigShape Corr.C12 Tree.CheckProofs Tree.GenBigLevels Tree.WrapperProofs.
 From Coq Require Import Permutation.
 
 (* The n-ary generator (and hence the binary and star generators) returns, in
@@ -157,3 +157,35 @@ Theorem c12_big_tree_levels : forall hosts N nodes l,
   list_sum (level_sizes l) = nodes /\ rshape N (rev (level_sizes l)).
 Proof. exact gen_big_tree_levels. Qed.
 Print Assumptions c12_big_tree_levels.
+
+(* the callers the property names (local.go LocalTest.GenBigTree, simulation.go
+   SimulationBFTree.CreateTree): for every legal argument they return a tree of exactly the
+   requested number of nodes, rooted at member 0, well formed over their servers, levels filled
+   breadth-first; LocalTest.GenTree is the binary generator *)
+Theorem c12_local_test_gen_big_tree : forall nodes servers bf,
+  1 <= nodes -> 1 <= servers -> 1 <= bf ->
+  exists l, lt_gen_big_tree nodes servers bf = GTree l /\
+    length l = nodes /\
+    wf_tree servers bf l = true /\ hd_error l = Some (0, 0) /\
+    list_sum (level_sizes l) = nodes /\ rshape bf (rev (level_sizes l)).
+Proof. exact lt_gen_big_tree_spec. Qed.
+Print Assumptions c12_local_test_gen_big_tree.
+
+Theorem c12_local_test_gen_big_tree_use_all : forall servers bf, 1 <= servers -> 1 <= bf ->
+  exists l, lt_gen_big_tree servers servers bf = GTree l /\
+    Permutation (map fst l) (seq 0 servers).
+Proof. exact lt_gen_big_tree_use_all. Qed.
+Print Assumptions c12_local_test_gen_big_tree_use_all.
+
+Theorem c12_simulation_create_tree : forall hosts bf nhosts,
+  hosts <> [] -> 1 <= bf -> 1 <= nhosts ->
+  exists l, sim_create_tree hosts bf nhosts = GTree l /\
+    length l = nhosts /\
+    wf_tree (length hosts) bf l = true /\ hd_error l = Some (0, 0) /\
+    list_sum (level_sizes l) = nhosts /\ rshape bf (rev (level_sizes l)).
+Proof. exact sim_create_tree_spec. Qed.
+Print Assumptions c12_simulation_create_tree.
+
+Theorem c12_local_test_gen_tree : forall n, lt_gen_tree n = gen_nary n 2 RNil.
+Proof. exact lt_gen_tree_is_binary. Qed.
+Print Assumptions c12_local_test_gen_tree.
